@@ -411,7 +411,9 @@ static void conc_case(Rng& rng) {
                     case 10: case 11: b = sole; break;          // copy of the shared, singly owned handle           // clone if shared - while others may be letting go
                     default: if (a && (*a->heap <= 0 || *a->heap > a->id)) verif::fail("C12:concurrent:object-corrupted", g_scenario); break;   // a clone keeps the value of its original
                     }
-                    if (a && !Registry::get().alive(a.get())) { verif::fail("C12:concurrent:destroyed-while-referenced", "a thread holds a handle to a destroyed object | " + g_scenario); break; }
+                    // (controlled runs only: on real threads the registry's lock would add happens-before edges
+                    //  between the threads and hide races of the counter from TSan; ASan sees the use-after-free)
+                    if (g_serial && a && !Registry::get().alive(a.get())) { verif::fail("C12:concurrent:destroyed-while-referenced", "a thread holds a handle to a destroyed object | " + g_scenario); break; }
                 }
             });
         }
